@@ -773,6 +773,32 @@ def _fp() -> None:
     pass
 """
 
+# the same module with decorated public functions that most `__all__` variants do NOT export, placed in front of
+# exported definitions (state a generator carries from a skipped definition must not reach the next emitted one)
+_ALL_BODY_DECO = """import functools
+from contextlib import contextmanager
+from typing import Iterator, overload
+@functools.lru_cache(maxsize=None)
+def fc(pa: int) -> int:
+    return pa
+@contextmanager
+def fd() -> Iterator[int]:
+    yield 1
+@overload
+def fe(pa: int) -> int: ...
+@overload
+def fe(pa: str) -> str: ...
+def fe(pa):
+    return pa
+class Cc:
+    @staticmethod
+    def sm(pa: int) -> int:
+        return pa
+    @property
+    def pr(self) -> int:
+        return 0
+""" + _ALL_BODY
+
 ALL_VARIANTS = [
     ("no __all__", "{body}"),
     ("__all__ list", "__all__ = ['fa', 'Ca', 'va']\n{body}"),
@@ -905,4 +931,10 @@ def plans(tier: str) -> list[Plan]:
     src = _instantiate(REL_STAR[1], nxt).replace("&", "c19_pk_1")
     star = Defn(f"E{nxt:04d}", "relimport", REL_STAR[0], src, _owned_names(src), [])
     out.append(Plan("c19_pk_1", "relimport", "package", [star], {"__init__.py": _PKG_INIT, "a.py": _PKG_A}))
+    nxt += 1
+    for k, (label, tmpl) in enumerate(ALL_VARIANTS):
+        src = tmpl.format(body=_ALL_BODY_DECO)
+        d = Defn(f"E{nxt:04d}", "all", label + " / decorated non-exported definitions first", src, _owned_names(src), [])
+        nxt += 1
+        out.append(Plan(f"c19_alld_{k}", "all", "module", [d]))
     return out
